@@ -143,6 +143,7 @@ enum LT {
     Binary(bool),
     Fsb(usize),
     List(Box<LT>),
+    LargeList(Box<LT>),
     Fsl(usize, Box<LT>),
     Struct(Vec<LT>),
     Dict(DataType, Box<LT>),
@@ -163,6 +164,7 @@ fn lt_dt(t: &LT) -> DataType {
         LT::Binary(l) => if *l { DataType::LargeBinary } else { DataType::Binary },
         LT::Fsb(n) => DataType::FixedSizeBinary(*n as i32),
         LT::List(i) => DataType::List(Arc::new(Field::new("item", lt_dt(i), true))),
+        LT::LargeList(i) => DataType::LargeList(Arc::new(Field::new("item", lt_dt(i), true))),
         LT::ListView(i) => DataType::ListView(Arc::new(Field::new("item", lt_dt(i), true))),
         LT::Fsl(n, i) => DataType::FixedSizeList(Arc::new(Field::new("item", lt_dt(i), true)), *n as i32),
         LT::Struct(fs) => DataType::Struct(Fields::from(fs.iter().enumerate().map(|(k, t)| Field::new(format!("f{k}"), lt_dt(t), true)).collect::<Vec<_>>())),
@@ -172,14 +174,30 @@ fn lt_dt(t: &LT) -> DataType {
     }
 }
 
-const GRID: [&str; 30] = [
+const GRID: [&str; 30] = [  // see also BITS (nested bit-/byte-level leaves)
     "bool", "i8", "i16", "i32", "i64", "u8", "u32", "u64", "f32", "f64", "dec128", "utf8", "lutf8", "bin", "fsb3", "list", "fsl2",
     "struct", "dict8", "dict32", "ree", "utf8view", "listview", "liststr",
     "listsv", "structsv", "dictsv", "fslstr", "lbin", "reestr",
 ];
 
+/// nested bit-/byte-level leaves: parents whose child range start and child `ArrayData::offset`
+/// are drawn over all residue pairs mod 8 (see `realisations`)
+const BITS: [&str; 9] = ["listbool", "llistbool", "fsl5bool", "fsl3bool", "liststructbool", "listi8", "llistfsb", "fsl3i8", "listlistbool"];
+fn is_bits(ts: &str) -> bool {
+    BITS.contains(&ts)
+}
+
 fn parse_lt(s: &str) -> LT {
     match s {
+        "listbool" => LT::List(Box::new(LT::Bool)),
+        "llistbool" => LT::LargeList(Box::new(LT::Bool)),
+        "fsl5bool" => LT::Fsl(5, Box::new(LT::Bool)),
+        "fsl3bool" => LT::Fsl(3, Box::new(LT::Bool)),
+        "liststructbool" => LT::List(Box::new(LT::Struct(vec![LT::Bool, LT::Prim(DataType::Int8)]))),
+        "listi8" => LT::List(Box::new(LT::Prim(DataType::Int8))),
+        "llistfsb" => LT::LargeList(Box::new(LT::Fsb(3))),
+        "fsl3i8" => LT::Fsl(3, Box::new(LT::Prim(DataType::Int8))),
+        "listlistbool" => LT::List(Box::new(LT::List(Box::new(LT::Bool)))),
         "bool" => LT::Bool,
         "i8" => LT::Prim(DataType::Int8),
         "i16" => LT::Prim(DataType::Int16),
@@ -220,8 +238,13 @@ const WORDS: [&str; 10] = ["", "a", "ab", "abc", "\u{e9}t\u{e9}", "\u{20ac}", "a
 const F64S: [u64; 8] = [0, 0x8000000000000000, 0x7ff8000000000000, 0x7ff8000000000001, 0xfff8000000000000, 0x3ff0000000000000, 0xbff0000000000000, 0x7ff0000000000000];
 const F32S: [u32; 8] = [0, 0x80000000, 0x7fc00000, 0x7fc00001, 0xffc00000, 0x3f800000, 0xbf800000, 0x7f800000];
 
+thread_local! {
+    /// when set, `gen_val` produces no nulls at any depth (columns for the no-null fast paths)
+    static NO_NULLS: std::cell::Cell<bool> = std::cell::Cell::new(false);
+}
+
 fn gen_val(rng: &mut Rng, t: &LT, nullable: bool) -> V {
-    if nullable && rng.chance(1, 4) {
+    if nullable && !NO_NULLS.with(|c| c.get()) && rng.chance(1, 4) {
         return V::N;
     }
     match t {
@@ -251,8 +274,8 @@ fn gen_val(rng: &mut Rng, t: &LT, nullable: bool) -> V {
             V::X((0..n).map(|_| *rng.pick(&[0u8, 1, 0x61, 0xff])).collect())
         }
         LT::Fsb(n) => V::X((0..*n).map(|_| *rng.pick(&[0u8, 1, 0x61, 0xff])).collect()),
-        LT::List(i) | LT::ListView(i) => {
-            let n = rng.usize(4);
+        LT::List(i) | LT::LargeList(i) | LT::ListView(i) => {
+            let n = if matches!(**i, LT::Bool | LT::Prim(DataType::Int8) | LT::Fsb(_)) { rng.usize(10) } else { rng.usize(4) };
             V::L((0..n).map(|_| gen_val(rng, i, true)).collect())
         }
         LT::Fsl(n, i) => V::L((0..*n).map(|_| gen_val(rng, i, true)).collect()),
@@ -263,7 +286,15 @@ fn gen_val(rng: &mut Rng, t: &LT, nullable: bool) -> V {
 }
 
 fn gen_col(rng: &mut Rng, t: &LT, n: usize) -> Vec<V> {
-    let nullable = !matches!(t, LT::Ree(_)) && !rng.chance(1, 5);
+    let nested = matches!(t, LT::List(_) | LT::LargeList(_) | LT::Fsl(..) | LT::Struct(_));
+    let none = nested && rng.chance(2, 5);
+    NO_NULLS.with(|c| c.set(none));
+    let r = gen_col_inner(rng, t, n, none);
+    NO_NULLS.with(|c| c.set(false));
+    r
+}
+fn gen_col_inner(rng: &mut Rng, t: &LT, n: usize, none: bool) -> Vec<V> {
+    let nullable = !none && !matches!(t, LT::Ree(_)) && !rng.chance(1, 5);
     let dense = rng.chance(1, 3);
     let mut out: Vec<V> = vec![];
     for _ in 0..n {
@@ -301,6 +332,10 @@ struct Knobs {
     force_validity: bool,
     /// type specific layout variation (dictionary order, run splitting, view buffers, list offsets)
     variant: bool,
+    /// unused child slots before the first list row (= start of the child range); None: 0..2 if variant
+    prefix: Option<usize>,
+    /// `ArrayData::offset` of the children; None: 0..3 if variant
+    kidpad: Option<usize>,
 }
 
 fn abuf(b: &[u8]) -> Buffer {
@@ -373,7 +408,14 @@ fn raw(rng: &mut Rng, t: &LT, col: &[V], k: &Knobs) -> ArrayData {
     let need_bitmap = col_has_null || slots.iter().any(|v| *v == V::N);
     let nulls = validity(rng, &slots, need_bitmap, k, !matches!(t, LT::Ree(_)));
     let n = col.len();
-    let kid_knobs = |rng: &mut Rng| Knobs { pad: if k.variant { rng.usize(4) } else { 0 }, garbage: k.garbage, force_validity: k.force_validity && rng.bool(), variant: k.variant };
+    let kid_knobs = |rng: &mut Rng| Knobs {
+        pad: k.kidpad.unwrap_or(if k.variant { rng.usize(4) } else { 0 }),
+        garbage: k.garbage,
+        force_validity: k.force_validity && rng.bool(),
+        variant: k.variant,
+        prefix: k.prefix.map(|_| rng.usize(8)),
+        kidpad: k.kidpad.map(|_| rng.usize(8)),
+    };
     let mut b = ArrayData::builder(lt_dt(t)).len(n).offset(k.pad);
     if let Some(nb) = &nulls {
         b = b.null_bit_buffer(Some(abuf(nb)));
@@ -431,15 +473,15 @@ fn raw(rng: &mut Rng, t: &LT, col: &[V], k: &Knobs) -> ArrayData {
             }
             b = b.add_buffer(abuf(&offs)).add_buffer(abuf(&data));
         }
-        LT::List(item) => {
+        LT::List(item) | LT::LargeList(item) => {
+            let ow = if matches!(t, LT::LargeList(_)) { 8 } else { 4 };
             let mut child: Vec<V> = vec![];
-            if k.variant {
-                for _ in 0..rng.usize(3) {
-                    child.push(garbage(rng, item));
-                }
+            let npre = k.prefix.unwrap_or(if k.variant { rng.usize(3) } else { 0 });
+            for _ in 0..npre {
+                child.push(garbage(rng, item));
             }
             let mut offs = vec![];
-            put_int(child.len() as i64, 4, &mut offs);
+            put_int(child.len() as i64, ow, &mut offs);
             for v in &slots {
                 match v {
                     V::L(x) => child.extend_from_slice(x),
@@ -451,7 +493,7 @@ fn raw(rng: &mut Rng, t: &LT, col: &[V], k: &Knobs) -> ArrayData {
                         }
                     }
                 }
-                put_int(child.len() as i64, 4, &mut offs);
+                put_int(child.len() as i64, ow, &mut offs);
             }
             let kk = kid_knobs(rng);
             b = b.add_buffer(abuf(&offs)).add_child_data(raw(rng, item, &child, &kk));
@@ -503,9 +545,8 @@ fn raw(rng: &mut Rng, t: &LT, col: &[V], k: &Knobs) -> ArrayData {
                     }
                 }
             }
-            // a fixed-size list addresses child slots (offset + i) * m: the child cannot be padded
-            let mut kk = kid_knobs(rng);
-            kk.pad = 0;
+            // a fixed-size list addresses child slots (offset + i) * m, on top of the child's own offset
+            let kk = kid_knobs(rng);
             b = b.add_child_data(raw(rng, item, &child, &kk));
         }
         LT::Struct(fs) => {
@@ -692,17 +733,17 @@ fn realisations(rng: &mut Rng, t: &LT, col: &[V]) -> Vec<Real> {
     let n = col.len();
     let mut push = |name: String, d: ArrayData| out.push(Real { name, arr: make_array(d.clone()), data: d });
     // 0: compact, zeroed null slots, validity only if needed
-    push("plain".into(), raw(rng, t, col, &Knobs { pad: 0, garbage: false, force_validity: false, variant: false }));
+    push("plain".into(), raw(rng, t, col, &Knobs { pad: 0, garbage: false, force_validity: false, variant: false, prefix: None, kidpad: None }));
     // 1: garbage under nulls, all-valid bitmap when there is no null
-    push("garbage".into(), raw(rng, t, col, &Knobs { pad: 0, garbage: true, force_validity: true, variant: false }));
+    push("garbage".into(), raw(rng, t, col, &Knobs { pad: 0, garbage: true, force_validity: true, variant: false, prefix: None, kidpad: None }));
     // 2: ArrayData offset at a bit offset
     let p = *rng.pick(&PADS);
     let fv = rng.bool();
-    push(format!("offset{p}"), raw(rng, t, col, &Knobs { pad: p, garbage: true, force_validity: fv, variant: false }));
+    push(format!("offset{p}"), raw(rng, t, col, &Knobs { pad: p, garbage: true, force_validity: fv, variant: false, prefix: None, kidpad: None }));
     // 3: type-specific layout variation, maybe padded
     let p = if rng.bool() { 0 } else { *rng.pick(&PADS) };
     let (g, fv) = (rng.bool(), rng.bool());
-    push(format!("variant{p}"), raw(rng, t, col, &Knobs { pad: p, garbage: g, force_validity: fv, variant: true }));
+    push(format!("variant{p}"), raw(rng, t, col, &Knobs { pad: p, garbage: g, force_validity: fv, variant: true, prefix: None, kidpad: None }));
     // 4: `Array::slice` of a larger array
     {
         let p = *rng.pick(&PADS);
@@ -713,9 +754,35 @@ fn realisations(rng: &mut Rng, t: &LT, col: &[V]) -> Vec<Real> {
             big.push(gen_val(rng, t, false));
         }
         let (g, vr) = (rng.bool(), rng.bool());
-        let d = raw(rng, t, &big, &Knobs { pad: 0, garbage: g, force_validity: false, variant: vr });
+        let d = raw(rng, t, &big, &Knobs { pad: 0, garbage: g, force_validity: false, variant: vr, prefix: None, kidpad: None });
         let a = make_array(d).slice(p, n);
         out.push(Real { name: format!("sliced{p}"), data: a.to_data(), arr: a });
+    }
+    // nested bit-/byte-level leaves: the child range start (list first offset / fixed-size-list
+    // (offset * size)) and the child's own `ArrayData::offset` over all residue pairs mod 8, biased
+    // to pairs whose sum is a multiple of 8 (byte-aligned fast paths of the leaf comparison)
+    let bits = match t {
+        LT::List(i) | LT::LargeList(i) | LT::Fsl(_, i) => matches!(**i, LT::Bool | LT::Prim(DataType::Int8) | LT::Fsb(_) | LT::Struct(_) | LT::List(_)),
+        _ => false,
+    };
+    if bits {
+        for _ in 0..4 {
+            let r1 = rng.usize(8) + 8 * rng.usize(2);
+            // for a fixed-size list the range start is pad * size: pick the pad, derive the residue
+            let pad = if matches!(t, LT::Fsl(..)) { rng.usize(10) } else if rng.bool() { 0 } else { rng.usize(10) };
+            let start = match t {
+                LT::Fsl(m, _) => pad * m,
+                _ => r1,
+            };
+            let r2 = if rng.bool() { (8 - start % 8) % 8 + 8 * rng.usize(2) } else { rng.usize(8) + 8 * rng.usize(2) };
+            let (g, fv, vr) = (rng.bool(), rng.bool(), rng.chance(1, 3));
+            tag(&format!("res:{}+{}", start % 8, r2 % 8));
+            if (start + r2) % 8 == 0 && start % 8 != 0 {
+                tag("res:sum8");
+            }
+            let d = raw(rng, t, col, &Knobs { pad, garbage: g, force_validity: fv, variant: vr, prefix: Some(r1), kidpad: Some(r2) });
+            out.push(Real { name: format!("res{start}_{r2}"), arr: make_array(d.clone()), data: d });
+        }
     }
     // 5: the standard builder / From impl
     if let Some(a) = std_build(t, col) {
@@ -981,6 +1048,7 @@ fn cast_targets(t: &LT) -> Vec<DataType> {
         LT::Binary(_) => vec![DataType::LargeBinary, DataType::BinaryView],
         LT::Fsb(_) => vec![DataType::Binary],
         LT::List(i) | LT::ListView(i) => vec![DataType::LargeList(Arc::new(Field::new("item", lt_dt(i), true)))],
+        LT::LargeList(i) => vec![DataType::List(Arc::new(Field::new("item", lt_dt(i), true)))],
         LT::Fsl(_, i) => vec![DataType::List(Arc::new(Field::new("item", lt_dt(i), true)))],
         LT::Dict(_, _) => vec![DataType::Utf8, DataType::Dictionary(Box::new(DataType::UInt16), Box::new(DataType::Utf8)), DataType::Utf8View],
         LT::Ree(_) => vec![DataType::Int32, DataType::Int64],
@@ -1354,9 +1422,9 @@ fn pick_n(rng: &mut Rng) -> usize {
 
 /// the lines of one generated column: the oracle case plus correspondence lines on its dumps
 fn gen_column_cases(rng: &mut Rng, out: &mut Vec<(String, String)>) {
-    let ts = *rng.pick(&GRID);
+    let ts = if rng.chance(1, 3) { *rng.pick(&BITS) } else { *rng.pick(&GRID) };
     let t = parse_lt(ts);
-    let n = pick_n(rng);
+    let n = if is_bits(ts) { *rng.pick(&[1usize, 2, 3, 4, 6, 9, 17]) } else { pick_n(rng) };
     let seed = rng.next_u64() >> 16;
     out.push((format!("C02 col {} {} {}", ts, n, seed), format!("op:col type:{} {}", ts, if n > 1 { "nt" } else { "" })));
     // correspondence lines: regenerate the same column and realisations
@@ -1376,9 +1444,17 @@ fn gen_column_cases(rng: &mut Rng, out: &mut Vec<(String, String)>) {
     let path = if nn == 0 { "nulls:none" } else if 10 * nn >= 4 * n { "nulls:dense" } else { "nulls:sparse" };
     let base = format!("type:{} {} {}{}", ts, path, if has_null { "has-null " } else { "" }, if n > 1 { "nt" } else { "" });
     // eq: a few same-column pairs and different-column pairs
-    for _ in 0..3 {
+    for _ in 0..(if is_bits(ts) { 12 } else { 3 }) {
         let (i, j) = (rng.usize(dumps.len()), rng.usize(dumps.len()));
-        out.push((format!("C02 eq {} {}", dumps[i].1, dumps[j].1), format!("op:eq same {} l:{} r:{}", base, strip_num(&dumps[i].0), strip_num(&dumps[j].0))));
+        let rt = |n: &str| -> String {
+            // residue tags of a `res<start>_<kidoffset>` realisation
+            match n.strip_prefix("res").and_then(|r| r.split_once('_')) {
+                Some((a, b)) => format!("{}+{}", a.parse::<usize>().unwrap_or(0) % 8, b.parse::<usize>().unwrap_or(0) % 8),
+                None => "-".into(),
+            }
+        };
+        let both = if dumps[i].0.starts_with("res") && dumps[j].0.starts_with("res") { format!(" res:{}|{}", rt(&dumps[i].0), rt(&dumps[j].0)) } else { String::new() };
+        out.push((format!("C02 eq {} {}", dumps[i].1, dumps[j].1), format!("op:eq same {} l:{} r:{}{}", base, strip_num(&dumps[i].0).split('_').next().unwrap().trim_end_matches(|c: char| c.is_ascii_digit()), strip_num(&dumps[j].0).split('_').next().unwrap().trim_end_matches(|c: char| c.is_ascii_digit()), both)));
     }
     if let Some(other) = perturb(rng, &t, &col) {
         if let Ok(others) = std::panic::catch_unwind(std::panic::AssertUnwindSafe(|| realisations(rng, &t, &other))) {
